@@ -40,6 +40,10 @@ import (
 // the tombstone (a target answering "already removed" is just skipped).
 const fpTomb = "C19:removed-object-served-again-after-evacuation"
 
+// fpDeg: Evacuate of a source shard running WITHOUT metabase (degraded
+// read-only) lists nothing, moves nothing and still returns success.
+const fpDeg = "C19:evacuate-degraded-shard-reports-success-moves-nothing"
+
 const (
 	cnr    = 0
 	nIDs   = 12
@@ -66,6 +70,8 @@ type kase struct {
 	Objs     []uni.Spec `json:"objs"`
 	Puts     []putOp    `json:"puts"`
 	Sources  []int      `json:"sources"`
+	// DegSources ⊆ Sources are evacuated in DEGRADED_READ_ONLY mode (no metabase).
+	DegSources []int `json:"degraded_sources,omitempty"`
 	// Target state of the non-source shards during evacuation: rw, ro, fail.
 	Targets map[int]string `json:"targets"`
 	FH      bool           `json:"fault_handler"`
@@ -80,7 +86,7 @@ func (k kase) String() string {
 	for _, p := range k.Puts {
 		fmt.Fprintf(&sb, "  put o%d (%s) failing shards %v\n", p.ID, k.Objs[p.ID].Kind, p.Fail)
 	}
-	fmt.Fprintf(&sb, "  evacuate sources=%v targets=%v faultHandler=%v\n", k.Sources, k.Targets, k.FH)
+	fmt.Fprintf(&sb, "  evacuate sources=%v (degraded-read-only: %v) targets=%v faultHandler=%v\n", k.Sources, k.DegSources, k.Targets, k.FH)
 	return sb.String()
 }
 
@@ -182,6 +188,9 @@ func gen(t *rapid.T) kase {
 			k.Sources = k.Sources[:k.N-1]
 		}
 	}
+	if rapid.IntRange(0, 3).Draw(t, "degsource") == 0 {
+		k.DegSources = []int{rapid.SampledFrom(k.Sources).Draw(t, "degsrc")}
+	}
 	k.Targets = map[int]string{}
 	for s := 0; s < k.N; s++ {
 		if !contains(k.Sources, s) {
@@ -267,7 +276,11 @@ func run(t *rapid.T, rec *ev.Recorder, k kase) (labels []string, nontrivial bool
 	// evacuation setup
 	var srcIDs []common.ID
 	for _, s := range k.Sources {
-		if err := e.SetMode(s, mode.ReadOnly); err != nil {
+		m := mode.ReadOnly
+		if contains(k.DegSources, s) {
+			m = mode.DegradedReadOnly
+		}
+		if err := e.SetMode(s, m); err != nil {
 			ev.Inconclusive("C19 set mode: %v", err)
 		}
 		srcIDs = append(srcIDs, e.Sh[s].ID)
@@ -300,7 +313,7 @@ func run(t *rapid.T, rec *ev.Recorder, k kase) (labels []string, nontrivial bool
 			shardCls[i] = append(shardCls[i], c)
 			anyOK = anyOK || c == engx.OK || c == engx.Split || c == engx.ECParent
 			anyRemoved = anyRemoved || c == engx.Removed
-			if c == engx.OK && contains(k.Sources, s) {
+			if c == engx.OK && contains(k.Sources, s) && !contains(k.DegSources, s) {
 				heldBySource[i] = true
 				if k.Objs[i].Kind != uni.Regular {
 					srcSpecial = true
@@ -308,6 +321,15 @@ func run(t *rapid.T, rec *ev.Recorder, k kase) (labels []string, nontrivial bool
 			}
 		}
 		divergent[i] = anyOK && anyRemoved
+	}
+	// onlyDeg[i]: the blob of i lives on degraded (no metabase) source shards only
+	onlyDeg := make([]bool, nIDs)
+	for i := 0; i < nIDs; i++ {
+		h := e.Holders(addr(i))
+		onlyDeg[i] = len(h) > 0
+		for _, s := range h {
+			onlyDeg[i] = onlyDeg[i] && contains(k.DegSources, s)
+		}
 	}
 	directTarget := make([]bool, nIDs)
 	for _, id := range []int{idA0, idA1} {
@@ -358,6 +380,29 @@ func run(t *rapid.T, rec *ev.Recorder, k kase) (labels []string, nontrivial bool
 		return
 	}
 	lab["evacuate-ok"] = true
+	// the recorded class, exactly: Evacuate succeeded although objects living
+	// only on a no-metabase source were neither moved nor handed over
+	degLeft := false
+	for i := 0; i < nIDs; i++ {
+		if onlyDeg[i] && handed[addr(i)] == nil {
+			moved := false
+			for s := range e.Sh {
+				moved = moved || (!contains(k.Sources, s) && e.Phys(s, addr(i)))
+			}
+			degLeft = degLeft || !moved
+		}
+	}
+	if len(k.DegSources) > 0 {
+		lab["degraded-source"] = true
+	}
+	if degLeft {
+		if rec.Known(fpDeg) {
+			rec.Excluded(1)
+			lab["known:"+fpDeg] = true
+		} else {
+			failf("[class %s] Evacuate of degraded-read-only source shard(s) %v returned (%d, nil) but objects stored only there were not moved", fpDeg, k.DegSources, n)
+		}
+	}
 	if len(handed) > 0 {
 		lab["fault-handler-used"] = true
 	}
@@ -404,6 +449,25 @@ func run(t *rapid.T, rec *ev.Recorder, k kase) (labels []string, nontrivial bool
 		}
 		excused[i] = true
 	}
+	// nothing is demanded for objects that lived only on a degraded source
+	// (class fpDeg above), nor for the targets / parents they describe
+	for i := 0; i < nIDs; i++ {
+		if !onlyDeg[i] || !degLeft {
+			continue
+		}
+		excused[i] = true
+		switch k.Objs[i].Kind {
+		case uni.Tombstone, uni.Lock:
+			excused[k.Objs[i].Target] = true
+		case uni.ChildV2, uni.Link, uni.ECPart:
+			if p := k.Objs[i].Parent; p >= 0 {
+				excused[p] = true
+			}
+			if i == idSp1 {
+				excused[idSpP] = true
+			}
+		}
+	}
 	// children share their parent's removal status
 	for i := 0; i < nIDs; i++ {
 		if p := k.Objs[i].Parent; p >= 0 && (excused[p] || divergent[p]) {
@@ -424,7 +488,7 @@ func run(t *rapid.T, rec *ev.Recorder, k kase) (labels []string, nontrivial bool
 			lab["divergent-address"] = true
 		}
 		if excused[i] {
-			lab["excused-by-fault-handler"] = true
+			lab["excused(fault-handler-or-degraded-source)"] = true
 		}
 		switch {
 		case excused[i]:
@@ -447,6 +511,17 @@ func run(t *rapid.T, rec *ev.Recorder, k kase) (labels []string, nontrivial bool
 				}
 			}
 		default:
+			shardOK := false
+			for _, c := range shardCls[i] {
+				shardOK = shardOK || c == engx.OK
+			}
+			if b.cls == engx.OK && !shardOK {
+				// no shard serves it on its own: the engine read came from the
+				// ignore-metadata fallback that a degraded shard switches on (the
+				// OPEN finding C20:marked-object-served-by-degraded-fallback)
+				lab["before-read-served-only-by-degraded-fallback(not-asserted)"] = true
+				break
+			}
 			switch b.cls {
 			case engx.OK:
 				if a.cls != engx.OK || !engx.SameObject(a.obj, objs[i]) || !engx.SameObject(b.obj, objs[i]) {
